@@ -505,6 +505,7 @@ pub fn catalogue(thorough: bool) -> Vec<&'static str> {
         "alu_pub_chain",
         "alu_priv_sq",
         "alu_derive_priv",
+        "alu_muladd_addend_derived_later",
         "alu_pub_is_const",
         "alu_two_pub_connected",
         "alu_div",
@@ -653,6 +654,22 @@ fn cat_bb(name: &str) -> Option<Result<Built<BF>, String>> {
             let c = a.c(f(7));
             a.b.connect(h, c);
             a.finish(Tri::Unsat, Tri::Unsat, false)
+        }
+        "alu_muladd_addend_derived_later" => {
+            // the private addend of a MulAdd is read BEFORE the op that could derive it
+            // (q = u - v, connect(p, q)): withholding it must be an error at the MulAdd
+            let x = a.public(f(3));
+            let y = a.public(f(5));
+            let p = a.private(f(7));
+            let m = a.b.mul_add(x, y, p);
+            let u = a.public(f(20));
+            let v = a.public(f(13));
+            let q = a.b.sub(u, v);
+            a.b.connect(p, q);
+            // m is left unconstrained on purpose: a run that reads the unset addend as some
+            // default value would otherwise be stopped by a later conflict
+            let _ = a.b.mul(m, x);
+            a.finish(Tri::Unknown, Tri::Unsat, false)
         }
         "alu_pub_is_const" => {
             let p = a.public(f(5));
